@@ -6,7 +6,8 @@ flock 8
 wt=/tmp/mrepo
 if [ ! -d $wt ]; then git -C /repo worktree add -q --detach $wt HEAD; fi
 cd $wt && git checkout -q -- . && git checkout -q --detach $(git -C /repo rev-parse HEAD) || exit 2
-git apply /verif/seeded/$id/patch.diff || { echo "MUTANT $id: patch does not apply to current HEAD"; exit 2; }
+# (patch_rebased.diff: the same change re-expressed on the current tree when later hook / fix commits moved its context)
+git apply /verif/seeded/$id/patch.diff 2>/dev/null || git apply /verif/seeded/$id/patch_rebased.diff || { echo "MUTANT $id: patch does not apply to current HEAD"; exit 2; }
 cd /verif
 for c in "$@"; do
   out=$(VERIF_ALT_REPO=$wt VERIF_TIER=${TIER:-quick} timeout ${TMO:-1800} bin/check $c 2>&1); rc=$?
